@@ -916,7 +916,7 @@ pub fn property() -> Property {
     Property {
         id: "C06",
         level: "exploration",
-        rule: "generated: 1-4 single-type rules over 3 fact types (well-typed atoms: int field vs literal/field with == != < <= > >=, string field with == != contains startsWith endsWith, bool field, one arithmetic operator on the left; && || ! to depth 3; salience ties; no-loop; action none / set unrelated field / set a condition field / Retract of the matched fact), converted by the real GrlReteLoader (hook verif_convert_rule) from parsed GRL text (part parser) or identical Rule values (part api), action closures wrapped by a recorder; histories of 4-14 insert/update/retract/fire_all/reset operations over <= 6 facts with a 3-value domain per field; plus exhaustive histories over 2 facts x 1 rule x 2 values. Oracles: O1 every firing's matched handle is live (engine view and API-level model) and REF says the rule's condition is true of exactly the contents the engine presents for that handle; O2 when all rules are no-loop with no actions: every fire_all fires exactly once each armed rule (not fired since the last reset) that a live fact written since the previous fire_all satisfies, may fire an armed rule some live fact satisfies, and fires nothing else; O3 after every operation get / get_by_type / get_all_facts / get_all_handles agree for every handle ever issued, ids increase, retracted handles are rejected by update/retract. Non-trivial: a fact matching some rule is updated or retracted before the next fire_all, or an action modifies/retracts with >= 2 live facts, or rules of different salience fire in one fire_all; distinct by hash of (rules, history). Drawn last: 1 history in 3 chooses one of 7 conflict-resolution strategies at one or two points; 1 history in 6 begins with a burst scenario on a fact of its own (insert; the same update 1001 times; update; fire_all; fire_all; update; fire_all). While an upper bound on the queued activations exceeds the engine's 1000-pop loop guard a fire_all is a draining call: soundness is judged, no firing is owed.",
+        rule: "generated: 1-4 single-type rules over 3 fact types (well-typed atoms: int field vs literal/field with == != < <= > >=, string field with == != contains startsWith endsWith, bool field, one arithmetic operator on the left; && || ! to depth 3; salience ties; no-loop; action none / set unrelated field / set a condition field / Retract of the matched fact), converted by the real GrlReteLoader (hook verif_convert_rule) from parsed GRL text (part parser) or identical Rule values (part api), action closures wrapped by a recorder; histories of 4-14 insert/update/retract/fire_all/reset operations over <= 6 facts with a 3-value domain per field; plus exhaustive histories over 2 facts x 1 rule x 2 values. Oracles: O1 every firing's matched handle is live (engine view and API-level model) and REF says the rule's condition is true of exactly the contents the engine presents for that handle; O2 when all rules are no-loop with no actions: every fire_all fires exactly once each armed rule (not fired since the last reset) that a live fact written since the previous fire_all satisfies, may fire an armed rule some live fact satisfies, and fires nothing else; O3 after every operation get / get_by_type / get_all_facts / get_all_handles agree for every handle ever issued, ids increase, retracted handles are rejected by update/retract. Non-trivial: a fact matching some rule is updated or retracted before the next fire_all, or an action modifies/retracts with >= 2 live facts, or rules of different salience fire in one fire_all; distinct by hash of (rules, history). Drawn last: 1 history in 3 chooses one of 7 conflict-resolution strategies at one or two points; 1 history in 6 begins with a burst scenario on a fact of its own (insert; the same update 1001 times; update; fire_all; fire_all; update; fire_all). While an upper bound on the queued activations exceeds the engine's 1000-pop loop guard a fire_all is a draining call: soundness is judged, no firing is owed. The object under test is built with new() or with default() in turn (by a hash of the case's data, no draw).",
         assumptions: vec![
             "a fact may lack a field (1 case in 4 lacks one): the two readings of an absent field (compares as null / atom is false) are both accepted - a firing is unsound only if the condition is false under both, owed only if true under both".into(),
             "multi-type joins, exists/forall, accumulate, multi-operator arithmetic are not generated".into(),
